@@ -90,9 +90,27 @@ func NewDiskQueue(name string, dataPath string, maxBytesPerFile int64, syncEvery
 		log.Printf("ERROR: diskqueue(%s) failed to retrieveMetaData - %s", d.name, err.Error())
 	}
 
+	// a crash can leave records behind the persisted write position (written, never synced).
+	// The writer overwrites them, but not before the reader's read-ahead buffer may have
+	// picked them up, so drop them before anything is read.
+	d.dropUnsyncedTail()
+
 	go d.ioLoop()
 
 	return &d
+}
+
+// dropUnsyncedTail cuts the current write segment back to the persisted write position
+func (d *DiskQueue) dropUnsyncedTail() {
+	fn := d.fileName(d.writeFileNum)
+	st, err := os.Stat(fn)
+	if err != nil || st.Size() <= d.writePos {
+		return
+	}
+	err = os.Truncate(fn, d.writePos)
+	if err != nil {
+		log.Printf("ERROR: diskqueue(%s) failed to truncate %s to %d - %s", d.name, fn, d.writePos, err.Error())
+	}
 }
 
 // Depth returns the depth of the queue
